@@ -194,6 +194,13 @@ func runC16(c *core.Ctx) {
 				c.Fail("c16.concurrent-downloads-bounded", fmt.Sprintf("count=%d max=%d", n, concurrent), "%d downloaders are registered for one block, the configured maximum is %d", n, concurrent)
 			}
 		}
+		// "finished without error" is observed as the block handler returning nil. A handler goroutine
+		// that a stall fault holds between its last signal and its return has finished in every
+		// respect but this observation, so the rule waits until no goroutine is parked any more (at
+		// the latest the final check, after the fault free epilogue).
+		if fd != nil && len(fd.Parked()) > 0 {
+			return
+		}
 		for _, r := range requests {
 			for _, sg := range r.signals {
 				if sg == "completed" && !handlerOK[r.blk.Hash] {
@@ -365,16 +372,9 @@ func runC16(c *core.Ctx) {
 			}
 			c.Event("advance %v", d)
 			if fd != nil {
-				for rem := d; rem > 0; {
-					early = 0
-					settle() // Engine F explores interleavings at one instant; time passes in slices, idle in between
-					chunk := 250 * time.Millisecond
-					if rem < chunk {
-						chunk = rem
-					}
-					time.Sleep(chunk)
-					rem -= chunk
-				}
+				early = 0
+				settle()
+				fd.Advance(d)
 			} else {
 				time.Sleep(d)
 			}
